@@ -108,6 +108,12 @@ def encOp (enc ty vals : String) : String :=
       let out := byteStreamSplit sz bs
       if byteStreamJoin sz bs.length out = bs then toHex out else "MODEL-SPEC-MISMATCH bss"
     | none => "bad-op"
+  | "dict", some sz =>
+    match parseInts vals with
+    | some xs =>
+      let ps := xs.map (fun x => (BitVec.ofInt (8 * sz) x).toNat)
+      s!"{toHex (plainFixed sz (dictUniques [] ps))} {toHex (dictIndexPage ps)}"
+    | none => "bad-op"
   | "delta", some sz =>
     match parseInts vals with
     | some xs =>
@@ -127,6 +133,9 @@ def encOp (enc ty vals : String) : String :=
         if enc = "plain" then toHex (if ty = "ba" then plainByteArray xs else xs.flatten)
         else if enc = "dlba" then toHex (dlbaEncode xs)
         else if enc = "dba" then toHex (dbaEncode xs)
+        else if enc = "dict" then
+          let us := dictUniques [] xs
+          s!"{toHex (if ty = "ba" then plainByteArray us else us.flatten)} {toHex (dictIndexPage xs)}"
         else if enc = "bss" then
           let sz := ((ty.drop 4).toString.toNat?).getD 0
           toHex (byteStreamSplit sz xs)
